@@ -20,7 +20,7 @@ def script(sc):
     for ci in range(rng.choice([1, 2, 3])):
         for _ in range(rng.randrange(1, 6)):
             sc.do_edit()
-        if rng.random() < 0.3 and len(sc.files) > 1:
+        if rng.random() < 0.3 and len(sc.files) > 1 and not sc.agent_deletion_pending():
             # a stash round trip with other agent work pending in between (read-only commands such as `stash list` / `stash show`
             # run at that point in the read-only variant)
             fa, fb = rng.sample(sc.files, 2)
